@@ -40,16 +40,16 @@ func (s Sort) String() string {
 }
 
 type Term struct {
-	op   string
-	args []*Term
-	s    Sort
-	isC  bool
-	cval uint64 // constant value (bool: 0/1; bv: masked; float: IEEE bits of its width)
-	p1   int    // extra parameter (extract hi / extend amount)
-	p2   int    // extract lo
-	id   int    // 0 = not interned yet (constants are interned lazily)
-	name string // for symbols
-	ub   uint64 // known unsigned upper bound on this path (set when an assumption states one)
+	op    string
+	args  []*Term
+	s     Sort
+	isC   bool
+	cval  uint64 // constant value (bool: 0/1; bv: masked; float: IEEE bits of its width)
+	p1    int    // extra parameter (extract hi / extend amount)
+	p2    int    // extract lo
+	id    int    // 0 = not interned yet (constants are interned lazily)
+	name  string // for symbols
+	ub    uint64 // known unsigned upper bound on this path (set when an assumption states one)
 	hasUB bool
 }
 
@@ -64,7 +64,6 @@ type TermTable struct {
 func NewTermTable() *TermTable {
 	return &TermTable{tab: map[string]*Term{}, nextID: 1, consts: map[[2]uint64]*Term{}}
 }
-
 
 func mask(w int) uint64 {
 	if w >= 64 {
